@@ -335,6 +335,8 @@ class SymEval:
                     e.value.id in b for b in self._comp_bound):
                 pv = f"{self.self_name}.{e.attr}"
                 defs = self.var_defs(pv, at)
+                if defs == frozenset({self.cfg.entry}):
+                    return ("self", e.attr)
                 if defs:
                     r = self._resolve_var(pv, at, depth)
                     if r is not None and r[0] != "var":
